@@ -3011,7 +3011,7 @@ class SQLiteDialect(default.DefaultDialect):
                 else:
                     predicate = predicate_match.group(1)
                     indexes[-1]["dialect_options"]["sqlite_where"] = text(
-                        predicate
+                        reflection._escape_reflected_sqltext(predicate)
                     )
 
         # loop thru unique indexes to get the column names.
